@@ -532,8 +532,9 @@ def check_strides(ctx, w):
                 raise_conds.append(cs)
             elif p.end[0] == 'return':
                 ret = expr.nfs(p.end[1], env)
-        guarded = raise_conds in ([[(small, True)]], [[(full, True)]])
-        exempt = raise_conds == [[(full, True)]]
+        full_split = list(expr.outcome('%s > 0 and %s < sizeof(%s)' % (off, ent, st), True))
+        guarded = raise_conds in ([[(small, True)]], [[(full, True)]], [full_split])
+        exempt = raise_conds in ([[(full, True)]], [full_split])
         ctx.ob('I-STRIDE0', f.construct, 'entry smaller than the header struct -> ELFError', guarded, got=raise_conds,
                msg='no guard that the header entry size is at least the struct size: a zero or tiny stride re-reads overlapping headers', line=f.node.lineno)
         ctx.ob('I-STRIDE0', f.construct, 'entry n at table offset + n*entry size', ret == expr.spec_nf('%s + n*%s' % (off, ent)), got=ret)
